@@ -6,8 +6,9 @@ import CalicoVerif.Model.C14
         BITS 1 established 2 finsSeen 4 finsSeenDSR 8 rstSeen 16 dsr; R* = nat_rev_key
   `del P A PA B PB`
   `exp NOW P A PA B PB`      EntryExpired of the entry under its own key's protocol
-  `scan NOW (h:P:A:PA:B:PB:T)*`  one Scan at NOW (entries visited in key order), then the listed packets
-        (refreshing last_seen to T; a forward-entry hit also refreshes its reverse entry), then the BPF cleaner.
+  `scan NOW (h:P:A:PA:B:PB:T | n:P:A:PA:B:PB:T:RB)*`  one Scan at NOW (entries visited in key order), then the listed packets
+        (refreshing last_seen to T; a forward-entry hit also refreshes its reverse entry), then the BPF cleaner
+        (queue walked in key order; the kernel's hash-map order is arbitrary, the theorems hold for every order).
         Output: the clean-up queue the scan built and the surviving conntrack entries. -/
 open CalicoVerif CalicoVerif.C14 CalicoVerif.Proto
 
@@ -43,11 +44,24 @@ def hit (ct : AMap Key Entry) (k : Key) (tm : Nat) : AMap Key Entry :=
       | some r => (ct.set k { e with lastSeen := tm }).set e.revKey { r with lastSeen := tm }
     | _ => ct.set k { e with lastSeen := tm }
 
-def parseHit (w : String) : Option (Key × Nat) :=
+/-- a NEW connection re-using the forward tuple `k`, NATted to another backend `rb`: the forward entry is
+replaced (pointing at a fresh reverse entry), the old reverse entry is left alone. -/
+def renew (ct : AMap Key Entry) (k : Key) (tm rb : Nat) : AMap Key Entry :=
+  let rk : Key := ⟨k.proto, k.a, k.pa, rb, 8080⟩
+  let blank : Entry := { typ := .fwd, lastSeen := tm, rstTs := 0, revKey := rk, established := false, finsSeen := false,
+                         finsSeenDSR := false, rstSeen := false, dsr := false }
+  (ct.set k blank).set rk { blank with typ := .rev, revKey := dummyKey }
+
+/-- `h:key:T` packet, `n:key:T:RB` new connection on a forward tuple. -/
+def parseHit (w : String) : Option (Key × Nat × Option Nat) :=
   match w.splitOn ":" with
   | ["h", p, a, pa, b, pb, t] => do
     let p ← p.toNat?; let a ← a.toNat?; let pa ← pa.toNat?; let b ← b.toNat?; let pb ← pb.toNat?; let t ← t.toNat?
-    pure (⟨p, a, pa, b, pb⟩, t)
+    pure (⟨p, a, pa, b, pb⟩, t, none)
+  | ["n", p, a, pa, b, pb, t, rb] => do
+    let p ← p.toNat?; let a ← a.toNat?; let pa ← pa.toNat?; let b ← b.toNat?; let pb ← pb.toNat?; let t ← t.toNat?
+    let rb ← rb.toNat?
+    pure (⟨p, a, pa, b, pb⟩, t, some rb)
   | _ => none
 
 def sortStr (xs : List String) : List String := xs.mergeSort (fun a b => decide (a ≤ b))
@@ -77,8 +91,10 @@ def step (s : St) (line : String) : St × String :=
     | some now, some hits =>
       let items := s.ct.mergeSort (fun x y => keyLe x.1 y.1)
       let q := scan s.t now s.ct items
-      let ct1 := hits.foldl (fun ct h => hit ct h.1 h.2) s.ct
-      let ct2 := clean ct1 q
+      let ct1 := hits.foldl (fun ct h => match h.2.2 with
+        | none => hit ct h.1 h.2.1
+        | some rb => renew ct h.1 h.2.1 rb) s.ct
+      let ct2 := clean ct1 (q.mergeSort (fun x y => keyLe x.1 y.1))
       let qs := sortStr (q.map (fun kq => s!"{showKey kq.1}={showKey kq.2.other},{kq.2.ts},{kq.2.revTs}"))
       let cs := sortStr (ct2.map (fun ke => s!"{showKey ke.1}={ke.2.lastSeen}"))
       ({ s with ct := ct2 }, "Q[" ++ ";".intercalate qs ++ "]|CT[" ++ ";".intercalate cs ++ "]")
